@@ -64,6 +64,28 @@ pub struct RepairRequest {
     req_type: RepairRequestType,
 }
 
+/// Verification hooks: build and inspect a [`RepairRequest`] from outside the crate.
+#[cfg(feature = "verif-hooks")]
+impl RepairRequest {
+    /// Builds a request exactly as `Repair::send_request` does.
+    #[must_use]
+    pub fn verif_new(sender: ValidatorIndex, req_type: RepairRequestType) -> Self {
+        Self { sender, req_type }
+    }
+
+    /// Returns the sender of this request.
+    #[must_use]
+    pub fn verif_sender(&self) -> ValidatorIndex {
+        self.sender
+    }
+
+    /// Returns the type of this request.
+    #[must_use]
+    pub fn verif_req_type(&self) -> &RepairRequestType {
+        &self.req_type
+    }
+}
+
 /// Response messages for the repair sub-protocol.
 ///
 /// Each response type corresponds to a specific request message type.
